@@ -853,6 +853,91 @@ func checkSafeWhitelist(c *Ctx, safe *ssa.Function) {
 			c.Check("R15.4", "Safe/rejects", safe.Pos(), okRej, "a rune outside the set returns a non-nil error")
 		}
 	}
+	// idiom D: for len(s) > 0 { r, n := utf8.DecodeRuneInString(s); …; s = s[n:] } – the string is consumed from the front
+	if !decided {
+		for _, ci := range callsIn(safe) {
+			call, ok := ci.(*ssa.Call)
+			if !ok || calleeName(call) != "unicode/utf8.DecodeRuneInString" {
+				continue
+			}
+			ph, ok := stripConv(call.Call.Args[0]).(*ssa.Phi)
+			if !ok || len(ph.Edges) != 2 {
+				continue
+			}
+			runeV, width := extractOf(call, 0), extractOf(call, 1)
+			fromParam, advances := false, false
+			for _, e := range ph.Edges {
+				e = stripConv(e)
+				if p, isP := e.(*ssa.Parameter); isP && p.Parent() == safe {
+					fromParam = true
+				}
+				if sl, isSl := e.(*ssa.Slice); isSl && stripConv(sl.X) == ssa.Value(ph) && sl.High == nil && sl.Low != nil && width != nil && stripNum(sl.Low) == width {
+					advances = true
+				}
+			}
+			decided = true
+			if !fromParam || !advances || runeV == nil {
+				c.Violation("R15.4", "Safe/every-rune-examined", call.Pos(), "the consuming loop does not start with the whole argument or does not advance by exactly the width of the rune it decoded")
+				continue
+			}
+			// the loop goes on while something is left: len(s) > 0 / != 0
+			var body, done []Edge
+			allInstrs(safe, func(in ssa.Instruction) {
+				b, isB := in.(*ssa.BinOp)
+				if !isB {
+					return
+				}
+				arg, isLen := lenArg(b.X)
+				k, isK := constInt(b.Y)
+				if !isLen || !isK || k != 0 || stripConv(arg) != ssa.Value(ph) {
+					return
+				}
+				t, f := boolEdges(b)
+				switch b.Op {
+				case token.GTR, token.NEQ:
+					body, done = append(body, t...), append(done, f...)
+				case token.EQL, token.LEQ:
+					body, done = append(body, f...), append(done, t...)
+				}
+			})
+			c.Check("R15.4", "Safe/every-rune-examined", call.Pos(), len(body) > 0 && len(done) > 0, "the loop runs while len(rest) > 0, decoding the first rune of the rest and dropping exactly its bytes")
+			cuts := newCuts().addEdges(whitelistTrue(safe, runeV))
+			// a repository predicate applied to the rune: its value when the rune is in none of the four classes
+			for _, c2 := range callsIn(safe) {
+				pc, isCall := c2.(*ssa.Call)
+				if !isCall || pc == call {
+					continue
+				}
+				if val, known := evalNoWhitelist(whitelistTrue, runeV, pc, 0); known {
+					t, f := boolEdges(pc)
+					if val {
+						cuts.addEdges(f)
+					} else {
+						cuts.addEdges(t)
+					}
+				}
+			}
+			cuts.closeBoolPhis(safe)
+			accept, _ := reach(siteOf(call), func(x ssa.Instruction) bool {
+				if r, isR := x.(*ssa.Return); isR {
+					return isNilConst(returnValues(r)[0])
+				}
+				return x == ssa.Instruction(call)
+			}, cuts)
+			c.Check("R15.4", "Safe/accepted-set", safe.Pos(), !accept, "a rune is accepted only through unicode.IsLetter, unicode.IsDigit, == '_' or == '-'")
+			okNil, okRej := false, false
+			for _, r := range returnsOf(safe) {
+				v := returnValues(r)[0]
+				if isNilConst(v) {
+					okNil = len(done) > 0 && guardedByEdges(safe, r, done)
+				} else if definitelyNonNilError(v, nil) {
+					okRej = true
+				}
+			}
+			c.Check("R15.4", "Safe/nil-only-after-all-runes", safe.Pos(), okNil, "nil is returned only after every rune was examined")
+			c.Check("R15.4", "Safe/rejects", safe.Pos(), okRej, "a rune outside the set returns a non-nil error")
+		}
+	}
 	if !decided {
 		c.Undecided("R15.4", "Safe/iteration-idiom", safe.Pos(), "wstrings.Safe neither ranges over its argument nor uses strings.IndexFunc/ContainsFunc with a predicate of the repository: the accepted set cannot be read off this shape")
 	}
